@@ -478,6 +478,12 @@ func c05(c *core.Ctx) {
 		c.EndRule()
 	}
 
+	// ---------------------------------------------------------------- R14
+	if c.Rule("R14", "HTTP server: the stream does not touch its ResponseWriter once the handler has returned (net/http recycles the writer when the HTTP handler function ends; a goroutine the stream handler left behind would write into freed or re-used state: a nil-pointer panic in the server process): the stream has a 'finished' flag that the HTTP handler sets, on every path and under the stream's write lock, after the stream handler has returned, and every use of the writer field in the stream's methods lies on an edge where that flag was found false", 3) {
+		c05HTTPServerFence(c)
+		c.EndRule()
+	}
+
 	// ---------------------------------------------------------------- R8
 	if c.Rule("R8", "a WaitGroup a stream operation waits on is released exactly once: Add(1) once in the constructor, every caller of the constructor starts the releasing goroutine on all paths, and that goroutine calls Done exactly once on every path to its return", 1) {
 		c05WaitGroups(c, p, fns)
@@ -2489,4 +2495,163 @@ func mayMakeStatusError(fn *ssa.Function, depth int) bool {
 		}
 	}
 	return false
+}
+
+// c05HTTPServerFence: R14.
+func c05HTTPServerFence(c *core.Ctx) {
+	p := c.P
+	n := 0
+	for _, nt := range streamTypes(p, "ServerStream", "SendMsg") {
+		if pkgSuffixOf(nt) != "httpgrpc" {
+			continue
+		}
+		st, ok := nt.Underlying().(*types.Struct)
+		if !ok {
+			continue
+		}
+		tn := nt.Obj().Name()
+		wField := ""
+		var bools []string
+		for _, ff := range core.FlatFields(st) {
+			switch core.TypeStr(ff.Var.Type()) {
+			case "net/http.ResponseWriter":
+				wField = ff.Var.Name()
+			case "bool":
+				bools = append(bools, ff.Var.Name())
+			}
+		}
+		if wField == "" {
+			continue
+		}
+		n++
+		// the fence: a bool field stored true in a streaming HTTP handler literal on every path from each stream
+		// handler invocation to the literal's returns, with a lock of the stream held
+		fence := ""
+		var fencePos token.Pos
+		ls := core.NewLockSets(p.LibFuncs("httpgrpc"))
+		for _, hc := range httpHandlerClosures(p) {
+			if !hc.Stream {
+				continue
+			}
+			hcalls := handlerInvocations(hc.Fn)
+			if len(hcalls) == 0 {
+				continue
+			}
+			for _, bf := range bools {
+				var stores []ssa.Instruction
+				core.Instrs(hc.Fn, func(in ssa.Instruction) {
+					if s, ok := in.(*ssa.Store); ok {
+						if base, f, isF := core.FieldOf(s.Addr); isF && f == bf && core.NamedOf(base.Type()) == tn {
+							if b, isC := core.ConstBool(s.Val); isC && b {
+								stores = append(stores, in)
+							}
+						}
+					}
+				})
+				// ... or through a method of the stream that the literal calls (str.markFinished())
+				core.Instrs(hc.Fn, func(in ssa.Instruction) {
+					call, ok := in.(*ssa.Call)
+					if !ok {
+						return
+					}
+					h := call.Call.StaticCallee()
+					if h == nil || h.Blocks == nil || core.RecvName(h) != tn {
+						return
+					}
+					sets := false
+					core.Instrs(h, func(x ssa.Instruction) {
+						if s, ok := x.(*ssa.Store); ok {
+							if _, f, isF := core.FieldOf(s.Addr); isF && f == bf {
+								if b, isC := core.ConstBool(s.Val); isC && b {
+									sets = true
+								}
+							}
+						}
+					})
+					if sets {
+						stores = append(stores, in)
+					}
+				})
+				if len(stores) == 0 {
+					continue
+				}
+				isSet := func(x ssa.Instruction) bool {
+					for _, s := range stores {
+						if s == x {
+							return true
+						}
+					}
+					return false
+				}
+				all := true
+				for _, hcI := range hcalls {
+					reach := core.Walk(core.After(hcI), isSet, nil)
+					for _, r := range core.Returns(hc.Fn) {
+						if reach[r] {
+							all = false
+						}
+					}
+				}
+				if !all {
+					continue
+				}
+				locked := true
+				for _, s := range stores {
+					if _, isStore := s.(*ssa.Store); isStore && len(ls.HeldAt(s)) == 0 {
+						locked = false
+					}
+				}
+				if locked {
+					fence, fencePos = bf, stores[0].Pos()
+				}
+			}
+		}
+		key := "httpgrpc." + tn + ":finished-fence"
+		if fence == "" {
+			pos := token.NoPos
+			if m := declaredMethod(p, nt, "SendMsg"); m != nil {
+				pos = m.Pos()
+			}
+			c.Fail(key, pos, "the HTTP server stream has no flag that the HTTP handler sets (on every path, under the stream's lock) once the stream handler has returned: a send or a header write made later — by a goroutine the handler left behind — uses a ResponseWriter that net/http has already recycled (nil-pointer panic, or a write into another request's buffer) instead of reporting io.EOF")
+			continue
+		}
+		c.Ok(key, fencePos, "%s is set under the stream's lock on every path after the stream handler returned", fence)
+		// every use of the writer field is fenced
+		isFenceFalse := func(f core.Fact) bool {
+			if f.Op != token.ILLEGAL || !f.Neg {
+				return false
+			}
+			_, fld, isF := core.FieldOf(f.X)
+			return isF && fld == fence
+		}
+		for _, fn := range typeFuncs(p, nt) {
+			core.InstrsDeep(fn, func(f *ssa.Function, in ssa.Instruction) {
+				cc := core.CallOf(in)
+				if cc == nil {
+					return
+				}
+				uses := false
+				ops := append([]ssa.Value{}, cc.Args...)
+				if cc.IsInvoke() {
+					ops = append(ops, cc.Value)
+				}
+				for _, a := range ops {
+					if core.OriginIs(a, func(o ssa.Value) bool {
+						base, fld, isF := core.FieldOf(o)
+						return isF && fld == wField && core.NamedOf(base.Type()) == tn
+					}) {
+						uses = true
+					}
+				}
+				if !uses {
+					return
+				}
+				k := core.FuncName(fn) + ":writer-used-only-before-finish"
+				c.Check(core.GuardedBy(in, isFenceFalse), k, in.Pos(), "the writer is used on an edge where "+fence+" was found false", "this use of the stream's ResponseWriter is not guarded by the 'finished' flag ("+fence+"): after the handler has returned it touches a writer that net/http has recycled")
+			})
+		}
+	}
+	if n == 0 {
+		c.Missing("HTTP server stream type with an http.ResponseWriter field")
+	}
 }
